@@ -246,8 +246,14 @@ static FRes c15_run_call(const FCall &f, long k1, long k2, bool followup, Bytes 
   // what is still live that the call obtained (the caller's data block / result string are accounted separately)
   for (auto &kv : S.live) {
     if (kv.first == ra || kv.first == (void *)p) continue;
-    if (kv.second.mapping) r.leaked_maps++;
-    else r.leaked_heap++;
+    if (kv.second.mapping) {
+      // a mapping may stay only if its own munmap was the injected failure (and was not retried successfully)
+      bool excused = false;
+      for (void *q : S.failed_unmaps)
+        if (q == kv.first) excused = true;
+      if (!excused) r.leaked_maps++;
+    } else
+      r.leaked_heap++;
   }
   (void)own_before;
   struct crypt_data *obj = f.kind == 3 ? cd : (struct crypt_data *)ra;
@@ -346,9 +352,9 @@ static Verdict c15_check(const KV &c, Ctx &ctx) {
       if (!r.null_ret) return "C15 the call returned \"" + vis(r.out, 80) + "\" although an allocation/mapping request failed" + at;
       if (r.err != EINVAL && r.err != ERANGE && r.err != ENOMEM) return "C15 errno " + std::to_string(r.err) + " after a failed request is not a documented code" + at;
     }
-    size_t allowed_maps = munmap_injected ? (k2 >= 0 ? 2 : 1) : 0;
+    (void)munmap_injected;
     if (r.leaked_heap) return "C15 " + std::to_string(r.leaked_heap) + " heap block(s) leaked" + at;
-    if (r.leaked_maps > allowed_maps) return "C15 " + std::to_string(r.leaked_maps) + " mapping(s) leaked" + at;
+    if (r.leaked_maps) return "C15 " + std::to_string(r.leaked_maps) + " mapping(s) the call obtained are still mapped although munmap was never refused for them (leak)" + at;
     if (!r.scratch_zero) return "C15 scratch memory of the data object not erased" + at;
     if (follow != base_follow) return "C15 the next fault-free call on the same objects gives \"" + vis(follow, 80) + "\" instead of \"" + vis(base_follow, 80) + "\"" + at;
     return "";
